@@ -44,11 +44,12 @@ def oid_of(name):
     return FILES[name]
 
 
-def bytes_of(name):
-    if name in TREES:
-        return TREE_BYTES[name]
-    if name == "Araw":
-        return TREE_BYTES["A"]
+def bytes_of(name, alg="md5"):
+    if name in TREES or name == "Araw":
+        t = TREES["A" if name == "Araw" else name]
+        # (a store of another algorithm keys its listings by that algorithm's name; the object's own name
+        # is only a label for gc, which never re-hashes)
+        return TREE_BYTES["A" if name == "Araw" else name] if alg in ("md5", "md5-dos2unix") else ref.tree_bytes(t, alg)
     return CONTENTS[name]
 
 
@@ -63,6 +64,8 @@ def used_infos(names, store_alg="md5"):
             alg, what = n.split(":")
             if alg == "twin":
                 alg = "md5-dos2unix" if store_alg == "md5" else "md5"
+            if alg == store_alg:
+                alg = "sha1"   # always an algorithm other than the store's
             v = ref.tree_oid({"k": ABSENT}) if what == "absentdir" else oid_of(what)
             out.append(hi(v, alg))
         else:
@@ -77,12 +80,13 @@ def subsets(xs):
 
 def cases(tier):
     objs, used = universe(tier)
-    for kind in ("local", "base", "legacy"):
+    for kind in ("local", "base", "legacy", "sha256"):
         for store in subsets(objs):
             yield {"kind": kind, "store": list(store), "tier": tier}
 
 
-def run_one(kind, store, used, shallow, dry, cachemode, read_only=False, cache_ro=False, unpacked=False):
+def run_one(kind, store, used, shallow, dry, cachemode, read_only=False, cache_ro=False, unpacked=False,
+            pathform="plain", bulk=False):
     """One gc call on a freshly built store; returns (violations, outcome)."""
     from dvc_objects.errors import ObjectDBPermissionError
 
@@ -96,15 +100,24 @@ def run_one(kind, store, used, shallow, dry, cachemode, read_only=False, cache_r
             # both algorithms give them the same value)
             store_alg = "md5-dos2unix"
             odb = make_odb("local", w.p("store"), read_only=read_only, hash_name="md5-dos2unix")
+        elif kind == "sha256":
+            store_alg = "sha256"
+            odb = make_odb("local", w.p("store"), read_only=read_only, hash_name="sha256")
         else:
-            odb = make_odb(kind, w.p("store"), read_only=read_only)
+            spath = w.p("store")
+            if pathform == "trail":
+                spath = spath + os.sep
+            elif pathform == "dotdot":
+                os.makedirs(w.p("elsewhere"), exist_ok=True)
+                spath = os.path.join(w.p("elsewhere"), "..", "store")
+            odb = make_odb(kind, spath, read_only=read_only)
         for n in store:
-            put_raw(odb, oid_of(n), bytes_of(n))
+            put_raw(odb, oid_of(n), bytes_of(n, store_alg))
         cache_odb = None
         if cachemode == "cache":
             cache_odb = make_odb("local", w.p("cache"), read_only=cache_ro, hash_name=store_alg)
             for n in TREES:
-                put_raw(cache_odb, oid_of(n), bytes_of(n))
+                put_raw(cache_odb, oid_of(n), bytes_of(n, store_alg))
         if unpacked:
             # legacy artefact next to a directory object: <oid>.unpacked/ (not an object)
             for n in store:
@@ -113,7 +126,12 @@ def run_one(kind, store, used, shallow, dry, cachemode, read_only=False, cache_r
                     os.makedirs(d, exist_ok=True)
                     with open(os.path.join(d, "legacy"), "wb") as fh:
                         fh.write(b"legacy")
-        full_before = store_snapshot(odb.path)
+        if bulk:
+            from ..lab import BULK, BULK_MD5
+
+            for c, data in BULK.items():
+                put_raw(odb, BULK_MD5[c], data)
+        full_before = store_snapshot(w.p("store"))
         before = objects_only(full_before)
         store_oids = set(before)
 
@@ -151,7 +169,7 @@ def run_one(kind, store, used, shallow, dry, cachemode, read_only=False, cache_r
             )
         except BaseException as e:  # noqa: BLE001
             exc = e
-        full_after = store_snapshot(odb.path)
+        full_after = store_snapshot(w.p("store"))
         after = objects_only(full_after)
         if dry and exc is None and full_after != full_before:
             gone = sorted(str(k) for k in set(full_before) - set(full_after))
@@ -256,6 +274,23 @@ def run_case(case):
                 res["outcomes"].add(repr(outcome))
                 for sig, detail in viol:
                     res["viol"].append((sig + "/unpacked-dir", detail, sub))
+    # the store path spelled with a trailing separator / through '..', and 1300 extra unused objects
+    if len(store) == len(universe(tier)[0]) and case["kind"] in ("local", "base"):
+        extra = [("trail", False), ("dotdot", False), ("plain", True)]
+        for pathform, bulk in extra:
+            for used in ([], ["A"], ["A", "x"]):
+                for shallow in (True, False):
+                    for dry in (False, True):
+                        sub = {"kind": case["kind"], "store": store, "used": used, "shallow": shallow, "dry": dry,
+                               "cachemode": "self", "ro": False, "pathform": pathform, "bulk": bulk}
+                        viol, outcome = run_one(case["kind"], store, used, shallow, dry, "self",
+                                                pathform=pathform, bulk=bulk)
+                        res["n"] += 1
+                        res["trans"] += 1
+                        res["vac"]["path_spelling_or_bulk_runs"] = res["vac"].get("path_spelling_or_bulk_runs", 0) + 1
+                        res["outcomes"].add(repr(outcome))
+                        for sig, detail in viol:
+                            res["viol"].append((sig + ("/bulk" if bulk else f"/store-path-{pathform}"), detail, sub))
     # read-only refusal, once per store content (also with a separate, writable cache_odb), and the
     # converse: a writable store with a read-only cache_odb is collected normally
     for dry in (False, True):
@@ -280,7 +315,12 @@ def run_case(case):
 def replay(case):
     viol, _ = run_one(case["kind"], case["store"], case["used"], case["shallow"],
                       case["dry"], case["cachemode"], read_only=case.get("ro", False),
-                      cache_ro=case.get("cache_ro", False), unpacked=case.get("unpacked", False))
+                      cache_ro=case.get("cache_ro", False), unpacked=case.get("unpacked", False),
+                      pathform=case.get("pathform", "plain"), bulk=case.get("bulk", False))
+    if case.get("bulk"):
+        viol = [(s_ + "/bulk", d) for s_, d in viol]
+    elif case.get("pathform", "plain") != "plain":
+        viol = [(s_ + f"/store-path-{case['pathform']}", d) for s_, d in viol]
     if case.get("unpacked"):
         viol = [(s_ + "/unpacked-dir", d) for s_, d in viol]
     if case.get("cache_ro"):
@@ -305,6 +345,6 @@ def run(ctx):
         "a used directory object that is loadable from nowhere makes expansion "
         "undefined: only 'nothing is removed' is demanded then",
     ]
-    ctx.require("expanded_dir_protects_file", "removed_something")
+    ctx.require("expanded_dir_protects_file", "removed_something", "path_spelling_or_bulk_runs")
     cs = list(cases(ctx.tier))
     ctx.run_cases("run_case", cs, chunksize=1, det=4)
